@@ -722,6 +722,57 @@ class SList:
         return f"SList#{self.lid}"
 
 
+class GList:
+    """Content of a python list of *symbolic* length whose items are ints (arity None) or int tuples of a fixed
+    arity: one z3 array Int -> Int per component plus the length.  Immutable; State.lists[lid] holds the current one."""
+    __slots__ = ('cols', 'n', 'arity')
+
+    def __init__(self, cols, n, arity):
+        self.cols = tuple(cols)
+        self.n = to_int(n)
+        self.arity = arity
+
+    @staticmethod
+    def from_items(items, arity):
+        k = 1 if arity is None else arity
+        cols = [z3.K(z3.IntSort(), z3.IntVal(0)) for _ in range(k)]
+        g = GList(cols, SInt(0), arity)
+        for it in items:
+            g = g.append(it)
+        return g
+
+    @staticmethod
+    def fresh(name, arity):
+        k = 1 if arity is None else arity
+        cols = [z3.Array(fresh_name(f'{name}_c{j}'), z3.IntSort(), z3.IntSort()) for j in range(k)]
+        return GList(cols, SInt.fresh(name + '_n'), arity)
+
+    def get(self, i):
+        i = to_int(i)
+        vals = [SInt(z3.Select(c, i.z())) for c in self.cols]
+        return vals[0] if self.arity is None else STuple(vals)
+
+    def _parts(self, v):
+        if self.arity is None:
+            if not isinstance(v, SInt):
+                raise Unsupported("growable list: item is not an int")
+            return [v]
+        if not isinstance(v, STuple) or len(v) != self.arity or not all(isinstance(x, SInt) for x in v.items):
+            raise Unsupported("growable list: item is not an int tuple of the declared arity")
+        return list(v.items)
+
+    def append(self, v):
+        parts = self._parts(v)
+        cols = [z3.Store(c, self.n.z(), p.z()) for c, p in zip(self.cols, parts)]
+        return GList(cols, self.n + 1, self.arity)
+
+    def pop(self):
+        return self.get(self.n - 1), GList(self.cols, self.n - 1, self.arity)
+
+    def __len__(self):
+        raise Unsupported("python-level length of a growable list")
+
+
 class SNone:
     def __repr__(self):
         return "SNone"
